@@ -366,13 +366,15 @@ def normalise_l1(script, lines):
         d = kvs(l)
         if t[0] == "open" and "ch" in d:
             ch = int(d["ch"]) or 1
-        if "err" in d and t[0] in ("r", "w", "seek", "cmd"):
+        if "err" in d and t[0] in ("r", "w", "seek", "cmd", "rraw", "wraw"):
             l = re.sub(r"err=-?\d+", "err=0" if d["err"] == "0" else "err=E", l)
         if t[0] == "r" and "data" in d:
             ret = max(0, int(d.get("ret", 0)))
             items = ret * (ch if t[3] == "f" else 1)
             w = {"s16": 4, "s32": 8, "f32": 8, "f64": 16}[t[2]]
             l = l.split("data=")[0] + "data=" + d["data"][:items * w]
+        if t[0] == "rraw" and "data" in d:
+            l = l.split("data=")[0] + "data=" + d["data"][:2 * max(0, int(d.get("ret", 0)))]
         if t[0] == "iolog" and t[1] == "dump":
             l = "calls=%s fired=%s first=%s kinds=%s" % (d.get("calls"), d.get("fired"), d.get("first"), d.get("kinds", ""))
         out.append(l.strip())
